@@ -27,9 +27,7 @@ BUDGET = {
 
 
 def strategy(tier):
-  return st.fixed_dictionaries({'config': lb_config(), 'ops': lb_ops(100 if tier == 'quick' else 250),
-                                # at the end the owner closes the balancer before the requests in flight have completed
-                                'close_first': st.sampled_from([False, False, True])})
+  return st.fixed_dictionaries({'config': lb_config(), 'ops': lb_ops(100 if tier == 'quick' else 250)})
 
 
 def execute(plan):
@@ -39,23 +37,6 @@ def execute(plan):
     settle()
     advance(0.02)
     run.run_ops()
-    closed_early = False
-    if plan.get('close_first') and run.is_open():
-      # the owner closes the balancer while requests are still in flight; they complete afterwards.  Closing closes every
-      # member's channel (once); the late completions hand their load back and must not close anything a second time
-      run.step += 1
-      run.cur_op = ['close_balancer']
-      held = [ch for ch in run.live_channels().values() if not ch.close_steps]
-      try:
-        run.lb.Close()
-      except Exception as e:
-        run.raised('closing the balancer', e)
-      settle()
-      for ch in held:
-        if len(ch.close_steps) != 1:
-          run.viol(ID, 'not-closed', 'the balancer was closed; %r was closed %d times' % (ch, len(ch.close_steps)))
-      closed_early = True
-      run.flags.add('balancer_closed_with_requests_in_flight' if run.outstanding_reqs() else 'balancer_closed')
     # drain everything: every removed channel must end up closed exactly once
     for r in list(run.outstanding_reqs()):
       run.step += 1
@@ -66,13 +47,7 @@ def execute(plan):
       except Exception as e:
         run.raised('completing request %d on %r' % (r.id, r.channel), e)
       settle()
-      if not closed_early:
-        run.after_step()
-    if closed_early:
-      twice = [ch for ch in run.chans.created if len(ch.close_steps) > 1]
-      if twice:
-        run.viol(ID, 'closed-twice', 'after the balancer was closed and its in-flight requests completed, %r %s closed %r times' % (
-            twice, 'was' if len(twice) == 1 else 'were', [len(ch.close_steps) for ch in twice]))
+      run.after_step()
     flags = run.flags
   nt = None
   if (('leave_loaded' in flags or 'leave_down' in flags) and 'completion_on_removed' in flags) or \
